@@ -39,6 +39,20 @@ func Gen() *rapid.Generator[Case] {
 		for i := 0; i < n; i++ {
 			c.Recs = append(c.Recs, bg.Draw(t, "rec"))
 		}
+		// a record whose header checksum is a short varint (fewer than five bytes) followed by a payload that starts with
+		// 0x00, and not the last record: the one place where a continuation bit set on the last checksum byte still decodes
+		// to the same checksum value (one header in sixteen times one payload in 256 - looked up, not hoped for)
+		if hb := gen.HeaderBoundaryLengths()[1]; len(hb) > 0 && rapid.IntRange(0, 1).Draw(t, "shortsum") == 0 {
+			k := 0
+			for k < len(hb) && hb[k] <= maxLen {
+				k++
+			}
+			if k > 0 {
+				b := gen.Blob{Pat: "zero", Len: hb[rapid.IntRange(0, k-1).Draw(t, "shortsumLen")]}
+				at := rapid.IntRange(0, len(c.Recs)-1).Draw(t, "shortsumAt")
+				c.Recs = append(c.Recs[:at], append([]gen.Blob{b}, c.Recs[at:]...)...)
+			}
+		}
 		return c
 	})
 }
@@ -131,6 +145,12 @@ func Prop(c Case, x *h.Ctx) *h.Violation {
 		hdrs[i] = hd
 	}
 	x.Labelf("comp=%d", c.Comp)
+	for i := range recs {
+		if hd := hdrs[i]; c.Comp == 0 && i+1 < len(recs) && len(recs[i]) > 0 && recs[i][0] == 0 && hd.Len-hd.FieldStart[4] < 5 {
+			x.Label("short-checksum-then-zero-payload-not-last")
+			break
+		}
+	}
 
 	// ---------------- 1. every truncation length ----------------
 	for cut := 0; cut <= len(data); cut++ {
